@@ -477,11 +477,25 @@ def int64Exact (x : Num) : Option Int :=
   | some k => if -9223372036854775808 ≤ k ∧ k ≤ 9223372036854775807 then some k else none
   | none => none
 
-/-- `bf.Uint64()` when its accuracy is `big.Exact` -/
+/-- `bf.Uint64()` when its accuracy is `big.Exact` — as math/big computes it:
+for `1 ≤ x < 2^64` the accuracy is `Exact` as soon as `x.MinPrec() <= 64`
+(math/big/float.go: `if x.MinPrec() <= 64 { return u, Exact }`), whether or not
+`x` is whole; the value is `trunc(x)`. -/
 def uint64Exact (x : Num) : Option Int :=
-  match x.toInt? with
-  | some k => if 0 ≤ k ∧ k ≤ 18446744073709551615 then some k else none
-  | none => none
+  match x with
+  | .inf _ => none
+  | .fin n m0 e0 _ =>
+    let me := Num.norm m0 e0
+    let m := me.1
+    let e := me.2
+    if m = 0 then some 0                       -- form zero (either sign)
+    else if n then none                        -- x < 0: (0, Above)
+    else
+      let exp : Int := e + (Num.bitlen m : Int)   -- big.Float's exponent (mantissa in [0.5, 1))
+      if exp ≤ 0 then none                     -- 0 < x < 1: (0, Below)
+      else if exp ≤ 64 then
+        (if Num.bitlen m ≤ 64 then (Num.fin false m e 0).truncInt else none)
+      else none                                -- too large
 
 def fromNumInt (x : Num) (bits : Nat) : Res Int :=
   match intMinMax bits with
@@ -497,13 +511,15 @@ def fromNumUInt (x : Num) (bits : Nat) : Res Int :=
   | some mx =>
     match uint64Exact x with
     | none => .err "whole number"
-    | some iv => if iv > mx then .err "whole number" else .ok iv
+    | some iv => if !x.isInt ∨ iv > mx then .err "whole number" else .ok iv
 
-/-- `fromCtyNumberFloat`: `bf.Float64()`, refuse an *inexact infinity*, then
-`target.SetFloat(fv)` — which for a float32 target is Go's `float32(fv)`. -/
+/-- `fromCtyNumberFloat`: `bf.Float64()`, refuse an *inexact infinity*; for a
+float32 target also refuse a finite `fv` whose `float32(fv)` is infinite; then
+`target.SetFloat(fv)` — which for a float32 target stores Go's `float32(fv)`. -/
 def fromNumFloat (x : Num) (is32 : Bool) : Res Num :=
   let r := x.toF64
   if !r.2 && r.1.isInf then .err "value must be between"
+  else if is32 && !r.1.isInf && (Num.f64to32 r.1).isInf then .err "value must be between"
   else .ok (if is32 then Num.f64to32 r.1 else r.1)
 
 /-- `fromCtyNumber` on a known, non-null, unmarked number -/
@@ -664,25 +680,10 @@ def fromCtyP (ms : List String) (ty : Ty) (p : Payload) (T : GoTy) : Res GoVal :
           | .struct tags tys =>
             if tys.length ≠ etys.length then .err "a tuple of n elements is required"
             else mapRes (fun gs => wrapPtr T.depth (.struct tags gs)) (seqAll (fromCtyZ ms etys cs tys))
-          | .bigInt =>
-            -- big.Int has two unexported fields (neg bool, abs nat): decoding into the
-            -- first one succeeds only by `SetBool` on an unexported field, which panics
-            if etys.length ≠ 2 then .err "a tuple of 2 elements is required"
-            else
-              (match fromCtyZ ms etys cs [.bool] with
-               | .ok _ :: _ => .panic "reflect: SetBool using value obtained using unexported field"
-               | .err c :: _ => .err c
-               | .panic w :: _ => .panic w
-               | _ => .unmodelled)
-          | .bigFloat =>
-            -- big.Float has seven unexported fields, the first is `prec uint32`
-            if etys.length ≠ 7 then .err "a tuple of 7 elements is required"
-            else
-              (match fromCtyZ ms etys cs [.int .w32 false] with
-               | .ok _ :: _ => .panic "reflect: SetUint using value obtained using unexported field"
-               | .err c :: _ => .err c
-               | .panic w :: _ => .panic w
-               | _ => .unmodelled)
+          | .bigInt | .bigFloat =>
+            -- big.Int / big.Float have only unexported fields: either the field count
+            -- differs or the first positional target is not settable (`!CanSet()`)
+            .err "object or tuple value is required"
           | _ => .err "object or tuple value is required")
        | _ => .unmodelled)
     | .smap ks cs =>
